@@ -89,7 +89,7 @@ def worker(cfg, tier='quick'):
     _install()
     import panqec.codes as pc
     from panqec.codes import StabilizerCode
-    col = hz.Collector(cfg)
+    col = hz.Collector(cfg, timeout_ms=60000 if tier == 'quick' else 240000)
     try:
         code = common.make_code(cfg)
         n, k = code.n, code.k
